@@ -36,6 +36,8 @@ type Fn struct {
 	// set on helper-transparent views (inline.go)
 	Orig    *Fn
 	Inlined []string
+	Alias   map[types.Object]aliasTo // helper parameters bound to the caller's access paths (views only)
+	Parents map[ast.Node]ast.Node    // parent links of the spliced body (views only; shared subtrees keep their original links in Prog.parent)
 }
 
 // orig returns the underlying declared function of a view.
@@ -71,6 +73,7 @@ type Prog struct {
 	siteCount map[*types.Func]int
 	inlViews  map[*Fn]*Fn
 	alias     map[types.Object]aliasTo
+	viewOf    map[*Fn]*Fn // function literal -> the helper-transparent view whose spliced body contains it
 }
 
 type infraError struct{ msg string }
@@ -510,6 +513,14 @@ func isFunc(f *types.Func, pkgPath, recv, name string) bool {
 func (p *Prog) FieldSel(fn *Fn, e ast.Expr) (*types.Var, ast.Expr) {
 	se, ok := ast.Unparen(e).(*ast.SelectorExpr)
 	if !ok {
+		// in a helper-transparent view a helper parameter stands for the caller's argument expression
+		if id, isID := ast.Unparen(e).(*ast.Ident); isID && fn != nil && fn.Orig != nil {
+			if v, isVar := p.ObjOf(fn, id).(*types.Var); isVar {
+				if a, ok := fn.Alias[v]; ok && a.root != nil && a.expr != nil && a.expr != e {
+					return p.FieldSel(fn, a.expr)
+				}
+			}
+		}
 		return nil, nil
 	}
 	sel := fn.Pkg.TypesInfo.Selections[se]
@@ -527,7 +538,7 @@ func (p *Prog) PathKey(fn *Fn, e ast.Expr) (root types.Object, key string, ok bo
 	case *ast.Ident:
 		o := p.ObjOf(fn, x)
 		if v, isVar := o.(*types.Var); isVar {
-			if a, ok := p.alias[v]; ok && fn.Orig != nil {
+			if a, ok := fn.Alias[v]; ok && fn.Orig != nil && a.root != nil {
 				return a.root, a.key, true // helper parameter seen through a helper-transparent view
 			}
 			return v, p.ID(v), true
@@ -594,4 +605,32 @@ func exprOf(n ast.Node) ast.Expr {
 		return e
 	}
 	return &ast.Ident{Name: fmt.Sprintf("<%T>", n)}
+}
+
+// ParentIn: the parent of n as seen from fn — in a helper-transparent view the spliced-in helper bodies hang
+// under the call site, not under the helper's declaration.
+func (p *Prog) ParentIn(fn *Fn, n ast.Node) ast.Node {
+	if fn != nil && fn.Parents != nil {
+		if par, ok := fn.Parents[n]; ok {
+			return par
+		}
+	}
+	return p.parent[n]
+}
+
+// aliasOf: the parameter bindings visible from fn — its own when fn is a helper-transparent view, those of the
+// view that contains it when fn is a function literal of a spliced-in helper.
+func (p *Prog) aliasOf(fn *Fn) map[types.Object]aliasTo {
+	if fn == nil {
+		return nil
+	}
+	if fn.Alias != nil {
+		return fn.Alias
+	}
+	for f := fn; f != nil; f = f.Parent {
+		if v := p.viewOf[f]; v != nil {
+			return v.Alias
+		}
+	}
+	return nil
 }
